@@ -32,6 +32,8 @@ func init() {
 				Doc: "The registration helper registers on the mux on every path on which no earlier registration was found, and reports 'registered on root' only after it registered \"/\": otherwise a service is reachable through Dispatch but answers 404 through ServeHTTP, or all later services are never registered."},
 			{ID: "C11.e", Template: "T-SIBLING", Required: true, Run: ruleC11e,
 				Doc: "Remove builds a new mux; whatever registers on the container's mux must be replayed onto it, otherwise that kind of registration vanishes after any Remove."},
+			{ID: "C11.i", Template: "T-LOCK", Required: true, Run: ruleC10c,
+				Doc: "Registration operations must be able to run after any request: every lock taken on the request path is released on all exits including panics raised by user code that runs under it (route conditions, custom routers) - same obligations as C10.c. A leaked read lock blocks the next Add/Remove forever, so the container no longer reaches the state a fresh one would have."},
 		},
 	})
 }
